@@ -39,7 +39,7 @@ func (o SPOp) String() string {
 }
 
 type Case11 struct {
-	Mode  string `json:"mode"` // "ops", "parse", "roundtrip"
+	Mode  string `json:"mode"`  // "ops", "parse", "roundtrip"
 	Query B      `json:"query"` // initial query text (ops, parse)
 	Ops   []SPOp `json:"ops,omitempty"`
 	Pairs []Pair `json:"pairs,omitempty"` // roundtrip
